@@ -1,4 +1,9 @@
 use engine::Property;
+pub mod bv;
+pub mod c01;
+pub mod c02;
+pub mod stacks;
+
 pub fn properties() -> Vec<Box<dyn Property>> {
-    vec![]
+    vec![Box::new(c01::C01), Box::new(c02::C02)]
 }
